@@ -73,7 +73,22 @@ def _np3():
 
 EF, EB = frozenset({"f"}), b"y"  # hashable IDs that are neither numbers nor strings
 
-NAMESPACE = {"shuffle": _shuffle, "aliased": _aliased, "TA": TA, "SB": SB, "FC": FC, "ET": ET, "ES": ES, "NP3": _np3(),
+def _become(H, X):
+    """Continue the history on X (a copy, an unpickled twin, a network built from H): H takes over X's complete instance
+    state.  On a tree where such twins are faithful the state does not change and the search does not branch; where a twin
+    differs in anything - the next automatic ID included - every later operation of the history runs on the difference."""
+    if type(X) is not type(H):
+        raise TypeError(f"become: {type(X).__name__} cannot replace {type(H).__name__}")
+    H.__dict__ = X.__dict__
+
+
+def _repickle(H):
+    import pickle
+
+    return pickle.loads(pickle.dumps(H))
+
+
+NAMESPACE = {"become": _become, "repickle": _repickle, "shuffle": _shuffle, "aliased": _aliased, "TA": TA, "SB": SB, "FC": FC, "ET": ET, "ES": ES, "NP3": _np3(),
              "EF": EF, "EB": EB}
 
 
@@ -179,6 +194,25 @@ def hypergraph_static(level="full"):
     A("H.set_node_attributes({9: 7, 1: 8, 3: 9}, name='c')")
     A("H.set_node_attributes({9: {'c': 2}, 1: {'c': 1}, 3: {'d': 0}})")
     A("H.__setitem__('name', 'x')")
+    # the network's own views and accessor results as arguments (filtered views, member / membership sets)
+    A("H.remove_edges_from(H.edges.singletons())")
+    A("H.remove_edges_from(H.edges.filterby('size', 2))")
+    A("H.remove_nodes_from(H.nodes.filterby('degree', 1))")
+    A("H.remove_nodes_from(H.nodes.isolates())")
+    A("H.add_edges_from(H.edges.members())")
+    A("H.add_edges_from(H.edges.members(dtype=dict))")
+    A("H.add_edge(H.nodes)")
+    A("H.add_edge(H.edges.members(0))")
+    A("H.remove_nodes_from(H.edges.members(0))")
+    A("H.remove_edges_from(H.nodes.memberships(2))")
+    A("H.remove_edges_from(H.edges.duplicates())")
+    # the history continues on a twin / a derived network of the same class
+    A("become(H, H.copy())")
+    A("become(H, repickle(H))")
+    A("become(H, xgi.Hypergraph(H))")
+    A("become(H, H.cleanup(isolates=True, singletons=True, multiedges=True, relabel=False, in_place=False))")
+    A("become(H, xgi.subhypergraph(H, nodes=[1, 2, 3]).copy())")
+    A("become(H, xgi.convert_labels_to_integers(H, in_place=False))")
     # in-place library helpers
     A("H.cleanup()")
     A("H.cleanup(relabel=False)")
@@ -491,6 +525,12 @@ def dihypergraph_static():
     A("H.set_node_attributes({9: 7, 1: 8, 3: 9}, name='c')")
     A("H.set_node_attributes({9: {'c': 2}, 1: {'c': 1}, 3: {'d': 0}})")
     A("H.__setitem__('name', 'x')")
+    # the history continues on a twin / a derived network of the same class
+    A("become(H, H.copy())")
+    A("become(H, repickle(H))")
+    A("become(H, xgi.DiHypergraph(H))")
+    A("become(H, H.cleanup(relabel=False, in_place=False))")
+    A("become(H, xgi.convert_labels_to_integers(H, in_place=False))")
     A("H.cleanup()")
     A("H.cleanup(relabel=False)")
     A("H.cleanup(isolates=True)")
@@ -616,6 +656,12 @@ def simplicial_static():
     A("H.remove_nodes_from([3, 9])")
     A("H.close()")
     A("H.clear()")
+    # the history continues on a twin / a derived network of the same class
+    A("become(H, H.copy())")
+    A("become(H, repickle(H))")
+    A("become(H, xgi.SimplicialComplex(H))")
+    A("become(H, H.cleanup(relabel=False, in_place=False))")
+    A("become(H, xgi.convert_labels_to_integers(H, in_place=False))")
     A("H.cleanup()")
     A("H.cleanup(relabel=False)")
     A("H.cleanup(isolates=True, connected=False)")
